@@ -18,8 +18,9 @@ with an ARBITRARY `deliver` (every handler graph), and in particular for `flush 
 
 The per-delivery half ("a delivery disposes of the event it is handed exactly once") is a statement about `deliverOne`
 only. It is proved here for the EVENT ledger `edrops` (user events `G n`/`T n`, whose destruction is logged there):
-`deliverOne_disposition`, `deliverOne_destroys_at_most_it_once`, `deliverOne_user_event_destroyed_once`, and, for a
-whole flush, `flush_destroys_each_user_event_once`. The COMPONENT-cell half (an `Insert` whose cell ends up stored in
+`deliverOne_disposition`, `deliverOne_destroys_at_most_it_once`, `deliverOne_user_event_destroyed_once`, for a delivery
+that panics `deliverOne_panic_disposition` (dropped exactly once: by the `take` or by the unwinding guard, never both —
+the ownership flag `inflightOwned` decides), and, for a whole flush, `flush_destroys_each_user_event_once`. The COMPONENT-cell half (an `Insert` whose cell ends up stored in
 the archetype, or dropped if the event is dropped) is not proved; see the comment at the end of this file. -/
 namespace Evenio
 
@@ -129,7 +130,8 @@ example : ∃ wd log, DfsLog twoKids {} [{ ty := .g 0, idx := 0 }] wd log ∧ (d
     `it` (`w.evInfo it`, the same entry `dropQueued` uses), exactly one of the following cases applies, and the event
     ledger is as stated (`dropE it l` is `l` extended by `it`'s serial if `it` is a user event, `l` otherwise):
     * dead target (`hs = none`): dropped iff `info.needsDrop`;
-    * taken (`owned = true`): dropped by the handler's `take`, once; later handlers and the built-in effect skipped;
+    * taken (`owned = true`, which is exactly when the handler phase ends with the ownership flag `inflightOwned` set):
+      dropped by the handler's `take`, once; later handlers and the built-in effect skipped;
     * not taken, `info.kind = .normal`: dropped after the handler loop iff `info.needsDrop`;
     * not taken, kind `Insert`/`Remove`/`Spawn`/`Despawn`: not dropped.
     In every case nothing else is written to the event ledger. -/
@@ -139,18 +141,32 @@ theorem deliverOne_disposition {it : QItem} {w w' : World} (h : (deliverOne it).
       match hs with
       | none => w'.edrops = if info.needsDrop then dropE it w.edrops else w.edrops
       | some hs =>
-        ∃ owned wh, (handlerPhase it info loc hs).run.run w1 = (.ok owned, wh) ∧
+        ∃ owned wh, (handlerPhase it info loc hs).run.run w1 = (.ok owned, wh) ∧ wh.inflightOwned = owned ∧
           w'.edrops =
             if owned then dropE it w.edrops
             else if info.kind = .normal ∧ info.needsDrop then dropE it w.edrops
             else w.edrops :=
   deliverOne_edrops h
 
-/-- a handler run, on normal return, has dropped the received event (once) iff it took it, and nothing else -/
+/-- A handler run started with the ownership flag clear (as every handler run of `deliverOne` is: the flag is cleared
+    before the loop and the loop stops at the first handler that took the event): on normal return the handler reports
+    `owned` iff one of its `take` actions fired, iff the flag `inflightOwned` is now set, iff the received event has
+    been written to the ledger — once (a second `take` finds the flag set and does nothing); nothing else is written.
+    The body keeps running after `take`, so this holds whatever the handler did afterwards. -/
 theorem runHandler_drops_iff_taken (hk : Key) (it : QItem) (loc : Loc) {w w' : World} {owned : Bool}
-    (h : (runHandler hk it loc).run.run w = (.ok owned, w')) :
-    w'.edrops = if owned then dropE it w.edrops else w.edrops :=
-  (runHandler_ok (l := w.edrops) hk it loc).run w rfl owned w' h
+    (h : (runHandler hk it loc).run.run w = (.ok owned, w')) (hf : w.inflightOwned = false) :
+    w'.inflightOwned = owned ∧ w'.edrops = if owned then dropE it w.edrops else w.edrops := by
+  have := (runHandler_spec (l := w.edrops) (b := false) hk it loc).ok ⟨hf, rfl⟩ h
+  rw [Bool.or_false] at this
+  exact this
+
+/-- the same when the handler run throws: the flag tells whether a `take` fired before the exception, the ledger
+    holds the received event iff it did, plus at most one entry for an event a failing send rejected -/
+theorem runHandler_throw_drops_iff_taken (hk : Key) (it : QItem) (loc : Loc) {w w' : World} {e : Err}
+    (h : (runHandler hk it loc).run.run w = (.error e, w')) (hf : w.inflightOwned = false) :
+    ∃ rej : List Nat, rej.length ≤ 1 ∧
+      w'.edrops = rej ++ (if w'.inflightOwned then dropE it w.edrops else w.edrops) :=
+  (runHandler_spec (l := w.edrops) (b := false) hk it loc).err ⟨hf, rfl⟩ h
 
 /-- never twice, never another event: a normally returning delivery leaves the event ledger unchanged or extends it
     by the delivered event's serial, once -/
@@ -170,7 +186,7 @@ theorem deliverOne_destroys_at_most_it_once {it : QItem} {w w' : World}
     · exact hE
     · exact .inl rfl
   | some hs =>
-    obtain ⟨owned, wh, _, hd⟩ := hd
+    obtain ⟨owned, wh, _, _, hd⟩ := hd
     rw [hd]
     split
     · exact hE
@@ -193,6 +209,33 @@ theorem deliverOne_builtin_event_no_edrop {it : QItem} {w w' : World}
     (h : (deliverOne it).run.run w = (.ok (), w')) (hu : it.isUser = false) : w'.edrops = w.edrops := by
   rw [deliverOne_ledger h (fun hc => by rw [hu] at hc; cases hc), ledgerOf_not_user hu]
   rfl
+
+/-- **Disposition when the delivery panics.** If `deliverOne it` throws `panic c` (for an in-flight event whose
+    registry entry is well formed, `UserEntryOk`), the in-flight event has been written to the event ledger EXACTLY
+    ONCE when control leaves `deliverOne`: either a handler took it before the panic (`inflightOwned` is set: the `take`
+    dropped it and the unwinding guard — first half of `EventDropper::drop` — left it alone), or nobody took it
+    (`inflightOwned` clear: the guard dropped it) — never both, never neither. The only other entry the delivery can
+    have written is `rej`: the one event a failing `Sender::send` rejected and destroyed itself before panicking (at
+    most one: that send is what panicked). For an event of a built-in type `ledgerOf it = []` and the statement says
+    that nothing but `rej` was written. -/
+theorem deliverOne_panic_disposition {it : QItem} {w w' : World} {c : String}
+    (h : (deliverOne it).run.run w = (.error (.panic c), w')) (hok : UserEntryOk w it) :
+    ∃ rej : List Nat, rej.length ≤ 1 ∧
+      ((w'.inflightOwned = true ∧ w'.edrops = rej ++ ledgerOf it ++ w.edrops) ∨
+       (w'.inflightOwned = false ∧ w'.edrops = ledgerOf it ++ rej ++ w.edrops)) :=
+  deliverOne_panic_ledger h hok
+
+/-- the underlying case analysis without the registry hypothesis: the panic came out of the handler loop (guard ran),
+    or out of the built-in effect of an event nobody took (never for the `normal` kind; ledger unchanged) -/
+theorem deliverOne_panic_cases {it : QItem} {w w' : World} {c : String}
+    (h : (deliverOne it).run.run w = (.error (.panic c), w')) :
+    ∃ info, w.evInfo it = some info ∧
+      ((∃ rej : List Nat, rej.length ≤ 1 ∧
+          ((w'.inflightOwned = true ∧ w'.edrops = rej ++ dropE it w.edrops) ∨
+           (w'.inflightOwned = false ∧
+              w'.edrops = if info.needsDrop then dropE it (rej ++ w.edrops) else rej ++ w.edrops))) ∨
+       (info.kind ≠ .normal ∧ w'.inflightOwned = false ∧ w'.edrops = w.edrops)) :=
+  deliverOne_panic_edrops h
 
 /-- **C11 for `flush`, event ledger.** When a top-level send returns, the event ledger has grown by exactly the
     delivered user events — each once, in delivery order — the delivered events are exactly those ever queued
@@ -227,12 +270,14 @@ example :
 ### What is NOT proved: the component-cell half of the disposition
 
 `Insert` events carry a component cell whose destruction is logged in `cdrops`, not in `edrops`. The analogue of
-`deliverOne_disposition` for `cdrops` — "(dead target / taken / unwinding) the cell is dropped once; (Insert applied)
-the cell is stored in the destination archetype by `moveEntity` and the cell it replaces, if any, is dropped" — needs a
-specification of `moveEntity`/`assignCol`/`moveCols` (what is stored where), which is outside the event loop and not
-attempted here. Likewise, that a delivery which THROWS has dropped the in-flight event exactly once unless taken (C13)
-is not proved: `runHandler_drops_iff_taken` and the calculus of `Evenio/Proofs/HoareOk.lean` speak about normal
-returns only; an exceptional-postcondition variant would be needed. -/
+`deliverOne_disposition` for `cdrops` — "(taken / unwinding) the cell is dropped once; (Insert applied) the cell is
+stored in the destination archetype by `moveEntity` and the cell it replaces, if any, is dropped" — needs a
+specification of `moveEntity`/`assignCol`/`moveCols` (what is stored where); the dead-target case is in C09
+(`dead_target_noop`). Also not proved: that the rejected event `rej` of `deliverOne_panic_disposition` carries a fresh
+serial (it does: `runAct` draws it from `freshE` just before the send), which is what makes "exactly once" a statement
+about VALUES rather than ledger entries; it would need the value flow `freshE → senderPush` in the triple of `runAct`.
+A handler run started with the flag already set is not covered by `runHandler_drops_iff_taken`; `deliverOne` never
+does that. -/
 
 #print axioms dfsLog_cons_iff
 #print axioms dfs_delivered_flatten
@@ -245,6 +290,9 @@ returns only; an exceptional-postcondition variant would be needed. -/
 #print axioms dfsPanic_accounts_each_once
 #print axioms deliverOne_disposition
 #print axioms runHandler_drops_iff_taken
+#print axioms runHandler_throw_drops_iff_taken
+#print axioms deliverOne_panic_disposition
+#print axioms deliverOne_panic_cases
 #print axioms deliverOne_destroys_at_most_it_once
 #print axioms deliverOne_user_event_destroyed_once
 #print axioms deliverOne_builtin_event_no_edrop
